@@ -422,3 +422,27 @@ fn c04_p4_rebroadcast_f7() {
     std::mem::forget(r);
 }
 
+
+/// C11.K / C04.P3b (F13 regression): a reorged uuid whose tracker is gone (its owner was purged by the gatekeeper, which
+/// processes the block first) is skipped: no panic, nothing sent, nothing reported; other trackers are untouched.
+#[kani::proof]
+#[kani::stub(bitcoin::Transaction::compute_txid, crate::verif_stubs::txid_model)]
+#[kani::stub(bitcoin::block::Header::block_hash, crate::verif_stubs::block_hash_model)]
+#[kani::stub(Carrier::hang_until_bitcoind_reachable, Carrier::hang_model)]
+#[kani::stub(Carrier::send_transaction, Carrier::send_transaction_contract)]
+#[kani::unwind(6)]
+fn c11_reorged_tracker_purged() {
+    let r = concrete_responder(None);
+    let height: u32 = kani::any();
+    push_tracker(&r, 1, ConfirmationStatus::ConfirmedIn(7));
+    r.reorged_trackers.lock().unwrap().insert(uuid(0)); // no row for uuid(0); tracker 1 is a bystander that was not reorged
+    unsafe { node::SCRIPT = Some(Outcome::Ok) };
+    let rejected = r.handle_reorged_txs(height);
+    assert!(r.reorged_trackers.lock().unwrap().is_empty(), "C04.resubmit: the reorged set is consumed");
+    assert!(unsafe { node::N_SENT } == 0, "C02: nothing is sent for a tracker that no longer exists");
+    assert!(rejected.is_none(), "C11.purged: a vanished tracker is neither reported nor crashes the block handler");
+    assert!(r.dbm.lock().unwrap().verif_tracker_row(uuid(1)).map(|t| t.status) == Some(ConfirmationStatus::ConfirmedIn(7)), "C04.resubmit: trackers that were not reorged are untouched");
+    kani::cover!(true, "reach");
+    std::mem::forget(rejected);
+    std::mem::forget(r);
+}
